@@ -1104,14 +1104,10 @@ impl Rasn {
             match ty {
                 ASN1Type::Null => Ok(quote!(())),
                 ASN1Type::Boolean(_) => Ok(quote!(bool)),
-                ASN1Type::Integer(_) => {
-                    match first_item {
-                        Some(ASN1Value::LinkedIntValue { integer_type, .. }) => {
-                            Ok(integer_type.to_token_stream())
-                        }
-                        _ => Ok(quote!(Integer)), // best effort
-                    }
-                }
+                // The element type decides, not the first item: a referenced value may have
+                // been declared with a narrower type of its own
+                ASN1Type::Integer(i) if first_item.is_some() => Ok(i.int_type().to_token_stream()),
+                ASN1Type::Integer(_) => Ok(quote!(Integer)), // best effort
                 ASN1Type::BitString(_) => Ok(quote!(BitString)),
                 ASN1Type::OctetString(_) => Ok(quote!(OctetString)),
                 ASN1Type::GeneralizedTime(_) => Ok(quote!(GeneralizedTime)),
